@@ -416,6 +416,10 @@ impl EnfWorld {
             }
             _ => {}
         }
+        if f[0] == "fs.blocktmp" || f[0] == "fs.unblocktmp" {
+            // a directory where the file adapter creates its temporary file: every write of the adapter itself then fails
+            return match &self.file_path { Some(p) => { let t = format!("{}.tmp", p); if f[0] == "fs.blocktmp" { std::fs::remove_file(&t).ok(); std::fs::create_dir_all(&t).ok(); } else { std::fs::remove_dir(&t).ok(); } "ok".into() } None => "no-file".into() };
+        }
         if f[0] == "fs.unlink" {
             return match &self.file_path { Some(p) => { std::fs::remove_file(p).ok(); "ok".into() } None => "no-file".into() };
         }
